@@ -115,6 +115,8 @@ fn rewrite_text(ts: &[T], rw: &Rw) -> String {
         Rw::Lead(n) => corpus::render_with(ts, &conv, &|_| 1, *n, 0),
         Rw::Trail(n) => corpus::render_with(ts, &conv, &|_| 1, 0, *n),
         Rw::LeadTrail(n) => corpus::render_with(ts, &conv, &|_| 2, *n, *n),
+        // an empty first atom marks the glued form: '<line>#<text>' without a blank in front of '#'
+        Rw::Comment(c) if c.starts_with('\u{1}') => format!("{}#{}", corpus::render(ts, &conv), &c[1..]),
         Rw::Comment(c) => format!("{} # {}", corpus::render(ts, &conv), c),
         Rw::CommentLine(c) => format!("# {}\n{}", c, corpus::render(ts, &conv)),
         Rw::Case(cls, how) => corpus::render(&apply_case(ts, *cls, *how), &conv),
@@ -205,6 +207,19 @@ impl Prop for C16 {
             ));
         }
         {
+            let lines = lines.clone();
+            f.push(Family::new(
+                "comments-glued",
+                Mode::Full,
+                &format!("{} corpus lines x '#<text>' written directly onto the last token, without a blank in front of '#', <text> in [the full price, 5 %, x, toplantı]: same value as without the comment", nl),
+                move |ch| {
+                    let (_, ts) = ch.pick(&lines).clone();
+                    let text = *ch.pick(&["the full price", "5 %", "x", "toplantı"]);
+                    Some(Case::Rewrite(ts, Rw::Comment(format!("\u{1}{}", text))))
+                },
+            ));
+        }
+        {
             let some: Vec<Vec<T>> = lines.iter().filter(|(tag, _)| tier == Tier::Thorough || ["arith", "date", "money"].contains(tag)).map(|(_, t)| t.clone()).step_by(tier.pick(3, 1)).collect();
             let n = some.len();
             f.push(Family::new(
@@ -270,9 +285,19 @@ impl Prop for C16 {
         f.push(Family::new(
             "operator-gaps",
             Mode::Full,
-            "lines whose token boundaries are unambiguous without blanks (an operator or a parenthesis on one side): '10 / foo + 2', '$25 / hour * 14', 'x = 100 / x / item', '2 * ( 3 + 4 ) - 5', '200 - 10%', '15% / foo', '1024 / 8 / 2', '3 km + 2 km', '12,5 usd * 2', '( 1 + 2 ) * ( 3 + 4 )', 'x = 7 / x * 2 / y' ... with every boundary independently written with 0, 1 or 2 blanks: the same last slot as the one-blank rendering (a value on one side and an error on the other is a difference)",
+            "lines whose token boundaries are unambiguous without blanks (an operator or a parenthesis on one side): '10 / foo + 2', '$25 / hour * 14', 'x = 100 / x / item', '2 * ( 3 + 4 ) - 5', '200 - 10%', '15% / foo', '1024 / 8 / 2', '3 km + 2 km', '12,5 usd * 2', '( 1 + 2 ) * ( 3 + 4 )', 'x = 7 / x * 2 / y', numeric dates '12 / 3 / 2021' (also with '+ 2 days', 'to', a variable as the day), a keyword next to a percentage ('200 off %10', '10% of 200') ... with every boundary independently written with 0, 1 or 2 blanks: the same last slot as the one-blank rendering (a value on one side and an error on the other is a difference)",
             move |ch| {
-                let lines: [&[&str]; 14] = [
+                let lines: [&[&str]; 22] = [
+                    // numeric dates: the slashes are tokens of their own
+                    &["12", "/", "3", "/", "2021"],
+                    &["3", "/", "4", "/", "2021", "+", "2 days"],
+                    &["1/1/2021 to 5", "/", "1", "/", "2021"],
+                    &["d = 12\nd", "/", "3", "/", "2021"],
+                    // a keyword directly next to a percentage: '%' ends / starts the literal
+                    &["200 off", "%10"],
+                    &["10%", "of 200"],
+                    &["40 on", "%25"],
+                    &["180 is 10%", "of what"],
                     &["10", "/", "foo", "+", "2"],
                     &["$25", "/", "hour", "*", "14"],
                     &["x = 100\nx", "/", "item"],
